@@ -47,7 +47,8 @@ CLASSES = ["direct/basic", "direct/compensated", "direct/testparticles_type0", "
            "direct/ignore1", "direct/ignore2", "direct/ghost", "direct/shear", "direct/zero_mass", "direct/softened",
            "direct/N>50", "direct/N_active=0", "direct/momentum", "tree_theta0/ghost", "tree_history/mass_edit_after_steps", "tree_history/edit_nudge", "tree_bound/prediction_checked",
            "tree_bound/bound_checked", "tree_bound/apriori_bound_checked", "mercurius_split/two_part_identity",
-           "mercurius_split/partial_encounter_map", "mercurius_split/pairs_in_changeover", "mercurius_split/remove_active_member",
+           "mercurius_split/partial_encounter_map", "mercurius_split/pairs_in_changeover", "mercurius_real_step/encounter_built_by_integrator",
+           "mercurius_real_step/two_or_more_testparticles_in_map_type1", "mercurius_split/remove_active_member",
            "mercurius_split/remove_testparticle_member", "mercurius_split/remove_active_with_testparticles_in_map",
            "mercurius_split/remove_two_part_identity", "trace_split/remove_active_member",
            "trace_split/remove_active_with_testparticles_in_map", "trace_split/two_part_identity",
@@ -996,6 +997,118 @@ def run_mercurius(case, ctx):
     del keep
 
 
+# ---------------------------------------------------------------------------------------
+# MERCURIUS with the encounter state built by the integrator itself: one real (tiny) step of a system that
+# holds a cluster of bodies inside each other's dcrit, then the bookkeeping and the two force parts are read back.
+
+@st.composite
+def cluster_case(draw):
+    N = draw(st.integers(3, 8))
+    G = draw(st.sampled_from([1.0, 4 * math.pi ** 2, 0.9]))
+    base = [draw(S.floats(0.5, 1.0)) * draw(st.sampled_from([1.0, -1.0])), draw(S.floats(-0.5, 0.5)), draw(S.floats(-0.2, 0.2))]
+    pos = [[0.0, 0.0, 0.0]]
+    m = [1.0]
+    for k in range(1, N):
+        far = draw(st.sampled_from([False, False, False, True]))
+        if far:
+            pos.append([-(k + 1.5) * base[0], (k + 1.0) * 0.7, 0.3 * k])
+        else:
+            pos.append([base[a] + 0.004 * (k if a == 0 else 0) + 0.02 * draw(S.floats(-1.0, 1.0)) for a in range(3)])
+        m.append(draw(st.sampled_from([1e-3, 1e-3, 3e-4, 1e-4, 0.0])))
+    return {"N": N, "box": None, "G": G, "soft": 0.0, "m0": 1.0, "pos": pos, "m": m, "R": 1.0,
+            "n_active": draw(st.one_of(st.just(-1), st.integers(1, N), st.integers(1, min(N, 3)))),
+            "tp_type": draw(st.sampled_from([0, 1, 1])), "ignore": 0,
+            "L": draw(st.sampled_from(["mercury", "infinity", "C4", "C5"])), "dt": draw(st.sampled_from([1e-7, 1e-6]))}
+
+
+def run_mercurius_step(c, ctx):
+    import numpy as np
+    import warnings
+    from ..oracles import c02_forces_ref as R
+    warnings.simplefilter("ignore")
+    LD = np.longdouble
+    N, pos, m = c["N"], c["pos"], c["m"]
+    if not distinct_positions(pos):
+        ctx.skip("coincident particles")
+        return
+    sim = build_sim(c, "basic", pos, m)
+    sim.integrator = "mercurius"
+    sim.ri_mercurius.L = c["L"]
+    sim.ri_mercurius.safe_mode = 0            # stay in democratic heliocentric coordinates after the step
+    sim.dt = c["dt"]
+    sim.step()
+    rim = sim.ri_mercurius
+    n = N if c["n_active"] < 0 else c["n_active"]
+    dcrit = [rim._dcrit[i] for i in range(N)]
+    # members the encounter prediction must have found: an active body and any other body that start the step closer
+    # than max(dcrit) (the prediction takes the minimum over the step, which is <= the starting distance)
+    X0 = np.array(pos)
+    must = set()
+    for i in range(1, n):
+        for j in range(i + 1, N):
+            if np.sqrt(np.sum((X0[i] - X0[j]) ** 2)) < 0.999 * max(dcrit[i], dcrit[j]):
+                must.update((i, j))
+    eN, eNa = rim._encounter_N, rim._encounter_N_active
+    if eN < 2:
+        if must:
+            raise Violation("mercurius step: bodies %r start inside dcrit of an active body but no encounter was integrated" % sorted(must))
+        ctx.cls("no_encounter")
+        return
+    mem = [int(rim._encounter_map[k]) for k in range(eN)]
+    what = "mercurius after one real step, integrator-built encounter map %r" % mem
+    if mem[0] != 0 or any(not (0 <= g < N) for g in mem) or any(a >= b for a, b in zip(mem, mem[1:])):
+        raise Violation(what + ": not an increasing list of valid indices starting with 0")
+    if not must <= set(mem):
+        raise Violation(what + ": bodies %r start inside dcrit of an active body but are not in the map" % sorted(must - set(mem)))
+    na = len([g for g in mem if g < n])
+    if eNa != na:
+        raise Violation("%s: encounter_N_active = %d but %d of the members are active (N_active=%d, testparticle_type=%d)"
+                        % (what, eNa, na, c["n_active"], c["tp_type"]), map=mem, encounter_N_active=eNa)
+    ctx.cls("encounter_built_by_integrator")
+    ntp = len([g for g in mem if g >= n])
+    if ntp >= 2:
+        ctx.cls("two_or_more_testparticles_in_map_type%d" % c["tp_type"])
+        ctx.nontrivial()
+    # (b) the two force parts with the integrator's own map / counts / dcrit, current heliocentric positions
+    hp = [[sim.particles[i].x, sim.particles[i].y, sim.particles[i].z] for i in range(N)]
+    if hp[0] != [0.0, 0.0, 0.0] or not distinct_positions(hp):
+        ctx.skip("central body not at the origin after the step / coincident")
+        return
+    mcur = [sim.particles[i].m for i in range(N)]
+    Lfn = rim._L
+    simref = ctypes.byref(sim)
+    Xd = np.array(hp)
+    D = Xd[:, None, :] - Xd[None, :, :]
+    rr = np.sqrt(np.sum(D * D, axis=2))
+    Lmat = np.zeros((N, N))
+    for i in range(1, N):
+        for j in range(1, N):
+            if i != j:
+                Lmat[i, j] = float(Lfn(simref, ctypes.c_double(float(rr[i, j])), ctypes.c_double(max(dcrit[i], dcrit[j]))))
+    mask = heliocentric_mask(N, c["n_active"], c["tp_type"])
+    star, cond_s = star_term(hp, mcur[0], c["G"], 0.0)
+    inm = np.zeros(N, dtype=bool)
+    inm[mem] = True
+    msub = mask & inm[:, None] & inm[None, :]
+    ref1, cond1, _ = R.direct_ld(hp, mcur, c["G"], 0.0, msub, weight=lambda r: (1 - Lmat).astype(LD))
+    rim.mode = 1
+    update_acc(sim)
+    a1 = read_acc(sim)
+    sel = np.array(mem)
+    compare(a1[sel], (ref1 + star)[sel], (cond1 + cond_s)[sel], msub.sum(axis=1)[sel] + 1, 24, 2,
+            what + ": (1-L)-weighted part + star", ctx, "merc_step_mode1_err/tol")
+    rim.mode = 0
+    update_acc(sim)
+    a0 = read_acc(sim)
+    ref0, cond0, _ = R.direct_ld(hp, mcur, c["G"], 0.0, mask, weight=lambda r: Lmat.astype(LD))
+    compare(a0, ref0, cond0, mask.sum(axis=1), 24, 2, what + ": L-weighted part", ctx, "merc_step_mode0_err/tol")
+    if len(mem) == N:
+        full, condf, _ = R.direct_ld(hp, mcur, c["G"], 0.0, mask)
+        compare(a0 + a1, full + star, condf + cond_s, 2 * mask.sum(axis=1) + 2, 48, 2,
+                what + ": mode 0 + mode 1 vs full heliocentric force of the partition", ctx, "merc_step_sum_err/tol")
+        ctx.cls("two_part_identity")
+
+
 # the C4/C5 polynomials have alternating coefficients up to 3465 (sum of magnitudes ~1.1e4): evaluated in double
 # they may leave [0,1] or lose monotonicity by that many ulps near y=1
 L_SLACK = 64 * EPS * 1.1e4
@@ -1379,6 +1492,8 @@ def subs(tier):
         Sub("jacobi_whfast_step", run_jacobi_step, strategy=jstep_case, quick=800, thorough=20000, shards_quick=4, shards_thorough=8),
         Sub("documented_partition", run_partition, cases=partition_cases, quick=1, thorough=1, shards_quick=1, shards_thorough=1),
         Sub("mercurius_split", run_mercurius, strategy=merc_case, quick=1000, thorough=40000, shards_quick=8, shards_thorough=16),
+        Sub("mercurius_real_step", run_mercurius_step, strategy=cluster_case(), quick=600, thorough=16000, shards_quick=8,
+            shards_thorough=16),
         Sub("switching_functions", run_switching, strategy=switch_case, quick=2000, thorough=40000, shards_quick=4,
             shards_thorough=8, journal=False),
         Sub("trace_split", run_trace, strategy=trace_case, quick=1000, thorough=40000, shards_quick=8, shards_thorough=16),
